@@ -34,7 +34,7 @@ register("C05", module="schedchecks", fn="case_c05", replay="replay_c05", binari
 
 register("C07", module="schedchecks", fn="case_c07", replay="replay_c07", binaries=("simplz",),
          cases={"quick": 16, "thorough": 600}, budget={"quick": 240, "thorough": 3000}, level="exploration",
-         rule="case = generated repo (multi-key env maps, label lists, named srcs, pass_env, require/provide, hash function drawn from 6) x 6(quick)/16(thorough) `plz hash [--detailed]` invocations with permuted command-line order, threads alternating 1/16, fresh or reused plz-out, each under a different seeded schedule AND a different seeded map-iteration order; oracle: stdout identical; distinct_nontrivial = distinct schedule-trace hashes",
+         rule="case = generated repo (multi-key env maps, label lists, named srcs, pass_env, require/provide, per-configuration command dicts, a configuration value introduced by the subincluded file with per-package package() overrides and targets embedding it, hash function drawn from 6) x 6(quick)/16(thorough) `plz hash [--detailed]` invocations with permuted command-line order, every third one over a subset of the labels only, threads alternating 1/16, fresh or reused plz-out, each under a different seeded schedule AND a different seeded map-iteration order; oracle: every printed block identical to the first run's block for that label; distinct_nontrivial = distinct schedule-trace hashes",
          assumptions=["Go map iteration order inside instrumented packages is replaced by a seeded per-task shuffle, so map-order leaks vary between runs of a case as they would between real runs"],
          components={"real": REAL_WHOLE, "stub": STUB_WHOLE})
 
